@@ -201,6 +201,11 @@ def subscript(I, o, k):
         ci = I.class_of(o)
         if ci is not None and ci.find_method("__getitem__"):
             return I.call_method_ast(o, "__getitem__", [k], {})
+    if isinstance(o, VRec) and getattr(o.t, "dictlike", False):
+        val, has = _rec_dict_key(o, k)
+        if has is not None:
+            I.require_defined(has, "KeyError", "missing key")
+        return val
     if isinstance(o, VNone):
         I.raise_exc("TypeError", "'NoneType' object is not subscriptable")
     if I.spec:
@@ -384,6 +389,36 @@ class VExt(V):
 REC_METHODS = {}   # (record-name prefix, method name) -> impl(I, rec, args, kw)
 
 
+def _rec_dict_key(o, k):
+    """dict-like record (R.record(..., dictlike=True)): an immutable dict *value* with a fixed universe of string
+    keys; field `k` holds the value of key k, the optional bool field `has_k` its presence (absent = always present).
+    Reading a key outside the declared universe is not modelled (Unsupported), so nothing is assumed about it."""
+    c = const_of(k) if isinstance(k, VStr) else _NOCONST
+    if not isinstance(c, str) or c not in o.fields or c.startswith("has_"):
+        raise Unsupported("key %r outside the declared universe of dict-like record %s" % (c, o.t.nm))
+    has = o.fields.get("has_" + c)
+    return o.fields[c], (None if has is None else z3.simplify(has.e))
+
+
+def rec_dict_get(I, o, args, kw):
+    val, has = _rec_dict_key(o, args[0])
+    default = args[1] if len(args) > 1 else VNone()
+    if has is None or z3.is_true(has):
+        return val
+    if z3.is_false(has):
+        return default
+    try:
+        if isinstance(default, VNone):
+            t = typeof(val)
+            t = t if isinstance(t, TOpt) else TOpt(t)
+            return t.wrap(z3.If(has, unwrap(val, t), t.none()))
+        return I.ite(has, val, default)
+    except (Unsupported, TypeError):
+        if I.spec:
+            raise Unsupported("dict-like record .get with a default of another type in a specification")
+    return val if I.path.branch(has) else default
+
+
 class VFile(V):
     t = None
 
@@ -439,6 +474,8 @@ def get_attribute(I, o, name, default=_NOCONST):
         for (prefix, mname), impl in REC_METHODS.items():
             if mname == name and o.t.nm.startswith(prefix):
                 return VFunc("builtin", name, impl=lambda I2, a, k, impl=impl, o=o: impl(I2, o, a, k))
+        if getattr(o.t, "dictlike", False) and name == "get":
+            return VFunc("builtin", "get", impl=lambda I2, a, k, o=o: rec_dict_get(I2, o, a, k))
     elif isinstance(o, VExt):
         if name in o.attrs:
             return o.attrs[name]
@@ -846,6 +883,9 @@ def bi_str(I, args, kw):
         return VStr("None")
     if isinstance(v, VBool):
         return VStr(z3.If(v.e, z3.StringVal("True"), z3.StringVal("False")))
+    if isinstance(v, VOpt) and I.spec:
+        inner = bi_str(I, [v.val()], {})
+        return VStr(z3.If(v.is_none(), z3.StringVal("None"), inner.e))
     if isinstance(v, VExc):
         m = getattr(v, "msg", None)
         if m is None:
@@ -938,6 +978,8 @@ def _isinst(I, v, nm):
     if isinstance(v, (VSet, VEmptySet)):
         return nm in ("set",)
     if isinstance(v, VRec):
+        if getattr(v.t, "dictlike", False):
+            return nm in ("dict", "Mapping", "MutableMapping")
         return nm == v.t.nm
     if isinstance(v, VObj):
         ci = I.class_of(v)
@@ -1016,6 +1058,8 @@ def to_seq(I, v):
         return view_to_seq(I, VMapView(v, "keys"))
     if isinstance(v, VDictRec):
         return I.mk_list([VStr(k) for k in v.fields])
+    if isinstance(v, (VNone, VInt, VReal, VBool)):
+        I.raise_exc("TypeError", "object is not iterable")
     raise Unsupported("list() of %s" % type(v).__name__)
 
 
